@@ -37,7 +37,7 @@ ASSUMPTIONS = [
     "float32 storage of the note array is the precision of the rebuild comparison",
 ]
 COMPONENTS = {"real": ["partitura.performance (PerformedPart, PerformedNote, adjust_offsets_w_sustain, Performance)", "partitura.io.importmidi.load_performance_midi", "utils.music.seconds_to_midi_ticks", "mido"], "stub": ["SimFS", "independent SMF writer (model/ref_smf.py)"]}
-PROBES = ("reclocked", "pedal_extended_note", "restrike_clipped", "illegal_edit_rejected", "threshold_127", "no_pedal_events", "pedal_event_at_release", "overlapping_equal_pitch", "threshold_raised", "performance_wrap", "rebuild")
+PROBES = ("meta_only_track", "reclocked", "pedal_extended_note", "restrike_clipped", "illegal_edit_rejected", "threshold_127", "no_pedal_events", "pedal_event_at_release", "overlapping_equal_pitch", "threshold_raised", "performance_wrap", "rebuild")
 
 
 # ----------------------------------------------------------------------------
@@ -54,6 +54,11 @@ def generate(seed, tier, cfg):
         on = w.choice((w.randrange(0, 24) / 4.0, round(w.uniform(0, 6), 3)))
         dur = w.choice((0.0, 0.25, 0.5, 1.0, 2.0, round(w.uniform(0.01, 3), 3)))
         notes.append({"id": "n%d" % i, "midi_pitch": w.choice(pitches), "note_on": on, "note_off": on + dur, "velocity": w.randrange(1, 128), "track": w.choice((0, 0, 1)), "channel": w.choice((0, 0, 1, 2))})
+    if k.random() < 0.15:
+        # note times given as whole seconds in Python ints (a hand-written list); pedal events stay fractional
+        for n in notes:
+            n["note_on"] = int(n["note_on"])
+            n["note_off"] = max(n["note_on"], int(round(n["note_off"])))
     if w.random() < 0.5:
         notes.sort(key=lambda n: n["note_on"])
     nc = k.choice((0, 0, 1, 2, 4, 8))
@@ -91,7 +96,7 @@ def generate(seed, tier, cfg):
         elif x < 0.95:
             ops.append({"k": "rebuild"})
         else:
-            ops.append({"k": "wrap", "extra_tracks": o.choice(((0,), (0, 1), (1, 3)))})
+            ops.append({"k": "wrap", "extra_tracks": o.choice(((0,), (0, 1), (1, 3))), "meta_track": o.choice((None, None, 5, 2))})
     return {"notes": notes, "controls": controls, "ops": ops, "route": cfg, "knobs": {"ppq": k.choice((480, 960, 96, 1)), "mpq": k.choice((500000, 600000, 250000)), "thr0": k.choice((64, 64, 0, 127, 100))}}
 
 
@@ -413,16 +418,24 @@ def execute(case, keep_log=False):
                 elif k == "wrap":
                     res.probe("performance_wrap")
                     other = P.PerformedPart([{"id": "x%d" % i, "midi_pitch": 40 + i, "note_on": 0.1 * i, "note_off": 0.1 * i + 0.05, "velocity": 50, "track": t, "channel": 0} for i, t in enumerate(op["extra_tracks"])], id="Q", controls=[{"type": "sustain_pedal", "number": 64, "time": 0.0, "value": 0, "track": op["extra_tracks"][0]}])
+                    if op.get("meta_track") is not None:
+                        # a conductor-style track: signatures on a track of their own that carries no note or control;
+                        # the part that has it comes first in the performance
+                        other.time_signatures = [{"time": 0.0, "beats": 3, "beat_type": 4, "track": op["meta_track"]}]
+                        other.key_signatures = [{"time": 0.0, "fifths": 2, "mode": "major", "track": op["meta_track"]}]
+                        res.probe("meta_only_track")
                     groups_before = [_track_partition(pp), _track_partition(other)]
-                    perf = P.Performance([pp, other])
-                    tr = [_tracks(x) for x in perf.performedparts]
+                    perf = P.Performance([other, pp] if op.get("meta_track") is not None else [pp, other])
+                    tr = [_tracks(x) for x in (pp, other)]
                     if tr[0] & tr[1]:
                         res.violation("P7-tracks", "wrap", "track numbers of two parts overlap after Performance(): %s and %s" % (sorted(tr[0]), sorted(tr[1])), site="overlap")
                     groups_after = [_track_partition(pp), _track_partition(other)]
                     if groups_after != groups_before:
                         res.violation("P7-tracks", "wrap", "renumbering tracks changed which notes/controls share a track: %s -> %s" % (groups_before, groups_after), site="partition")
-                    if perf.num_tracks != len(tr[0]) + len(tr[1]):
-                        res.violation("P7-tracks", "wrap", "num_tracks %s but parts use %s distinct tracks" % (perf.num_tracks, len(tr[0]) + len(tr[1])), site="num_tracks")
+                    # (num_tracks counts the tracks that carry notes, controls or programs)
+                    sounding = sum(len(set(n.get("track", -1) for n in x.notes) | set(c.get("track", -1) for c in x.controls) | set(p.get("track", -1) for p in x.programs)) for x in (pp, other))
+                    if perf.num_tracks != sounding:
+                        res.violation("P7-tracks", "wrap", "num_tracks %s but parts use %s distinct tracks for notes, controls and programs" % (perf.num_tracks, sounding), site="num_tracks")
                     outcome = [sorted(tr[0]), sorted(tr[1])]
             except Exception as e:
                 import traceback
@@ -448,7 +461,12 @@ def execute(case, keep_log=False):
 
 
 def _tracks(pp):
-    return set(n.get("track", -1) for n in pp.notes) | set(c.get("track", -1) for c in pp.controls) | set(p.get("track", -1) for p in pp.programs)
+    return (
+        set(n.get("track", -1) for n in pp.notes)
+        | set(c.get("track", -1) for c in pp.controls)
+        | set(p.get("track", -1) for p in pp.programs)
+        | set(m.get("track", -1) for m in (pp.time_signatures or []) + (pp.key_signatures or []) + (pp.meta_other or []))
+    )
 
 
 def _track_partition(pp):
